@@ -223,3 +223,100 @@ func GuardedByNilTest(b Edge, match func(ssa.Value) bool, wantNil bool) bool {
 	})
 	return found
 }
+
+// ---- one-level summaries of boolean helper functions -------------------------------------------
+
+// trueImplies reports whether a true result of fn implies pred holds "at the return": every
+// path that returns true passes a block for which pred(edge) holds, or returns a value that is
+// itself such a condition. Used to see through helpers like isNoSuchKey(err).
+func trueImplies(fn *ssa.Function, pred func(e Edge) bool, valuePred func(v ssa.Value) bool) bool {
+	if fn == nil || len(fn.Blocks) == 0 {
+		return false
+	}
+	var okVal func(v ssa.Value, from *ssa.BasicBlock, depth int) bool
+	okVal = func(v ssa.Value, from *ssa.BasicBlock, depth int) bool {
+		if depth > 6 {
+			return false
+		}
+		if c, isC := constBoolVal(v); isC {
+			return !c // a constant false never yields true; a constant true implies nothing
+		}
+		if valuePred != nil && valuePred(v) && pred(Edge{From: from}) {
+			return true
+		}
+		if pred(Edge{From: from}) && valuePred == nil {
+			return true
+		}
+		if ph, ok := v.(*ssa.Phi); ok {
+			for i, e := range ph.Edges {
+				if !okVal(e, ph.Block().Preds[i], depth+1) {
+					return false
+				}
+			}
+			return true
+		}
+		if in, ok := v.(ssa.Instruction); ok && in.Block() != nil {
+			if valuePred != nil && valuePred(v) && pred(Edge{From: in.Block()}) {
+				return true
+			}
+		}
+		return false
+	}
+	for _, b := range fn.Blocks {
+		ret, ok := b.Instrs[len(b.Instrs)-1].(*ssa.Return)
+		if !ok || len(ret.Results) != 1 {
+			continue
+		}
+		if !okVal(RetVal(ret, 0), b, 0) {
+			return false
+		}
+	}
+	return true
+}
+
+// NoSuchKeyHelper reports whether fn is a bool helper whose true result implies
+// errors.As(..) && <x>.Code() == "NoSuchKey".
+func NoSuchKeyHelper(fn *ssa.Function) bool {
+	if fn == nil || fn.Signature.Results().Len() != 1 || !isBool(fn.Signature.Results().At(0).Type()) {
+		return false
+	}
+	isCodeEq := func(v ssa.Value) bool {
+		bo, ok := v.(*ssa.BinOp)
+		if !ok || bo.Op != token.EQL {
+			return false
+		}
+		isConst := func(x ssa.Value) bool {
+			k, ok := x.(*ssa.Const)
+			return ok && k.Value != nil && k.Value.Kind() == constant.String && constant.StringVal(k.Value) == "NoSuchKey"
+		}
+		isCall := func(x ssa.Value) bool {
+			c, ok := x.(*ssa.Call)
+			return ok && calleeName(c) == "Code"
+		}
+		return isConst(bo.X) && isCall(bo.Y) || isConst(bo.Y) && isCall(bo.X)
+	}
+	return trueImplies(fn, func(e Edge) bool { return GuardedByCall(e, "errors", "As") }, isCodeEq)
+}
+
+// GuardedByNoSuchKey: edge e is only taken when the error is a well-formed NoSuchKey answer,
+// tested inline or through a one-level bool helper.
+func GuardedByNoSuchKey(e Edge) bool {
+	if GuardedByCall(e, "errors", "As") && GuardedByStringEq(e, "Code", "NoSuchKey") {
+		return true
+	}
+	found := false
+	eachIf(e.From.Parent(), func(iff *ssa.If, cond ssa.Value, neg bool) {
+		call, ok := cond.(*ssa.Call)
+		if !ok {
+			return
+		}
+		f := call.Call.StaticCallee()
+		if f == nil || !NoSuchKeyHelper(f) {
+			return
+		}
+		if sideDominates(iff, !neg, e) {
+			found = true
+		}
+	})
+	return found
+}
